@@ -152,6 +152,11 @@ NOT_APPLICABLE = {
 PENDING = "rule module not yet implemented in this revision of /verif (design in DESIGN.md §3); no claim is made until the check exists"
 
 
+import sys
+sys.path.insert(0, VERIF)
+from rules.notes import THIRD_ROUND  # noqa: E402
+
+
 def main():
     props = [json.loads(l)["id"] for l in open(os.path.join(VERIF, "properties.jsonl"))]
     checks = []
@@ -165,7 +170,7 @@ def main():
                 "evidence_file": "evidence/%s.json" % pid,
                 "replay_cmd_template": "./vcheck %s quick --replay {path}" % pid,
                 "engine": "factgen+rules",
-                "level_claimed": {"category": "other", "text": c["text"], "design_ref": c["design_ref"]},
+                "level_claimed": {"category": "other", "text": c["text"] + ((" " + THIRD_ROUND[pid]) if pid in THIRD_ROUND else ""), "design_ref": c["design_ref"]},
                 "level_note": c["note"],
                 "technique": c["technique"],
             })
